@@ -1070,8 +1070,23 @@ func (c *codecRun) tilePaths() {
 		"tile/0/000/", "/tile/0/000", "tile/0//000", "tile/0/000\n", "tile/0/000 ", " tile/0/000", "tile/0/0x0", "tile/0/1e2", "tile/0/١٢٣", "tile/0/000\x00",
 		"tile/9223372036854775807/000", "tile/9223372036854775808/000", "tile/0/000.p/255.p/3", "tile/0/x001.p/3/000", "tile/0/000.P/3", "tile/0/000.p/256",
 		"tile/0/000.p/255", "tile/data.p/3", "tile/data/x000/000", "tile/names/x000/000", "tile/0.p/1/000"}
+	// the sibling layout's spellings (c2sp.org/tlog-tiles: entry bundles under tile/entries/, no names tiles) and other
+	// directory names must not parse as Static CT tiles: each data tile would have two accepted paths
+	hand = append(hand, "tile/entries/000", "tile/entries/000.p/1", "tile/entries/x001/234.p/5", "tile/entries/x001/x234/067", "tile/entries/",
+		"tile/entries", "tile/entry/000", "tile/datas/000", "tile/name/000", "tile/DATA/000", "tile/Names/000", "tile/data/entries/000", "tile/entries/data/000",
+		"tile/-1/x001/234.p/5", "tile/-2/000.p/3", "tile/sth/000", "tile/leaves/000", "tile/issuer/000")
 	for _, p := range hand {
 		c.checkPath(p, "hand-written")
+	}
+	for _, sd := range seeds {
+		for _, repl := range []string{"entries", "entry", "leaves", "-1", "-2", "DATA"} {
+			if i := strings.Index(sd, "/data/"); i >= 0 {
+				c.checkPath(sd[:i+1]+repl+sd[i+5:], "other-layout-spelling")
+			}
+			if i := strings.Index(sd, "/names/"); i >= 0 {
+				c.checkPath(sd[:i+1]+repl+sd[i+6:], "other-layout-spelling")
+			}
+		}
 	}
 	m := 40
 	if thorough {
